@@ -439,7 +439,7 @@ class TranslatorBench:
             stp = ctx.get(bus.stp.o)
             txr = ctx.get(dut.tx_ready)
             rst_o = ctx.get(bus.rst.o) if has_rst else 0
-            r = {"rst": 1 if (in_reset or rst_o) else 0, "x1": xreq(xaddrs[0]) if xaddrs else 0,
+            r = {"rst": 1 if in_reset else 0, "x1": xreq(xaddrs[0]) if xaddrs else 0,
                  "x2": xreq(xaddrs[1]) if len(xaddrs) > 1 else 0,
                  "p1": phy.regs.get(xaddrs[0], 0) if xaddrs else 0,
                  "p2": phy.regs.get(xaddrs[1], 0) if len(xaddrs) > 1 else 0,
@@ -520,18 +520,11 @@ class WindowDecoderBench:
         pend = []
         recs = []
         reads = []
+        xa = s.get("xaddrs", (0x16, 0x31))            # registers whose requested value is tracked (x1/x2, p1/p2)
+        req = {a: phy.regs.get(a, 0) for a in xa}
+        scramble = s.get("scramble")                  # rng: change address/write_data right after the request strobe
+        issued = False
         for t in range(s["n"]):
-            # domain reset (ResetSignal) for one cycle; the UTMI side shares the domain and restarts as well
-            in_reset = t in resets
-            for cd in self.cds.values():
-                ctx.set(cd.rst, 1 if in_reset else 0)
-            if in_reset:
-                tx.cur = None
-                want_start = False
-            for a, sig in self.xsigs:
-                if t in xchanges and a in xchanges[t]:
-                    xval[a] = xchanges[t][a]
-                    ctx.set(sig, xval[a])
             d, n, di = phy.outputs()
             ctx.set(bus.dir.i, d)
             ctx.set(bus.nxt.i, n)
@@ -540,7 +533,13 @@ class WindowDecoderBench:
                 pend.append(ops[t])
             ctx.set(win.read_request, 0)
             ctx.set(win.write_request, 0)
+            if issued and scramble is not None:
+                # the arguments are only sampled with the request: present something else from now on
+                ctx.set(win.address, scramble.randrange(64))
+                ctx.set(win.write_data, scramble.randrange(256))
+            issued = False
             if pend and not ctx.get(win.busy):
+                issued = True
                 op = pend.pop(0)
                 ctx.set(win.address, op[1])
                 if op[0] == "read":
@@ -548,12 +547,17 @@ class WindowDecoderBench:
                 else:
                     ctx.set(win.write_data, op[2])
                     ctx.set(win.write_request, 1)
+                    if op[1] in req:
+                        req[op[1]] = op[2]
             do = ctx.get(bus.data.o)
             stp = ctx.get(bus.stp.o)
             if ctx.get(win.done):
                 reads.append((t, ctx.get(win.read_data)))
             r = {"dir": d, "nxt": n, "di": di, "rr": phy.rr, "rxv": 0, "rxd": 0, "rxa": 0,
-                 "do": do, "stp": stp, "busy": ctx.get(win.busy)}
+                 "do": do, "stp": stp, "oe": 1 - d, "busy": ctx.get(win.busy), "txv": 0, "txd": 0, "txr": 0,
+                 "r4": phy.regs[0x04], "ra": phy.regs[0x0A], "x1": req[xa[0]], "x2": req[xa[1]],
+                 "p1": phy.regs.get(xa[0], 0), "p2": phy.regs.get(xa[1], 0)}
+            r.update(CONTROL_DEFAULTS)
             for k, a in STATUS.items():
                 r[k] = ctx.get(getattr(dec, a))
             recs.append(r)
